@@ -33,7 +33,7 @@ theorem number_round_lex (l : Lex) (hwf : l.WF) (p : Int) (hp : 0 < p) :
   rcases number_lex l hwf p (fun m0 h => rnd_wf h p) with h | ⟨l', h1, h2, _, _, h5, _⟩
   · rw [h]; exact ⟨l.val, numVal_str l hwf, within_refl _ _ _⟩
   · refine ⟨l'.val, by rw [← h2]; exact numVal_str l' h1, ?_⟩
-    rcases h5 with ⟨z1, z2⟩ | ⟨hm, hgd, hv⟩
+    rcases h5 with ⟨z1, z2, _⟩ | ⟨hm, hgd, hv, _⟩
     · rw [z1, z2]; exact within_refl _ _ _
     · have hml := trimmed_mlen_le l hwf
       have hrnd : rnd p ⟨dropZeros l.ip, dropTrail '0' l.fp, l.expVal⟩ =
